@@ -850,8 +850,106 @@ def arm_check(prop, tier):
     return run.finish()
 
 
+# =============================================================== signature / boolean gates (C09, C10)
+
+def sig_models(run):
+    import sigfam
+    fam = {"types": sigfam.records(), "bools": [{"tokens": b["tokens"], "is_bool": b["is_bool"], "ret": b["ret"]} for b in sigfam.BOOL_FAMILY]}
+    path = os.path.join(WORK, "family.json")
+    os.makedirs(WORK, exist_ok=True)
+    json.dump(fam, open(path, "w"))
+    r = tlc.check("MC_Sig", "MC_Sig", workers=1, timeout=600, coverage=False, env_extra={"FAMILY": path})
+    run.add_model(r)
+    if r["violation"]:
+        run.design_violation(r)
+    return fam
+
+
+def sig_check(prop, tier):
+    import sigfam
+    run = Run(prop, tier)
+    sigfam.generate()
+    fam = sig_models(run)
+    vlib.build_harness()
+    if prop == "C09":
+        run.rule = ("every ordered pair of a %d-member function-type family (one-point changes of arity, a parameter type, reference "
+                    "mutability, return type, unsafety, ABI, order; two lifetime spellings exercised but not judged) x forms func!/func!, "
+                    "func!/closure!, func!/fake!, typed target + unchecked fake, unchecked target + typed fake, null pointers; each pair is "
+                    "a real installation; Pair events validated by TLC (Trace_Sig); async pairs by the async driver" % len(fam["types"]))
+        scen = []
+        for i, form in enumerate(["func", "closure", "fake", "typed-unchecked", "unchecked-typed", "null-fake", "null-target"], 1):
+            scen.append({"id": i, "mode": "pairs", "form": form, "types": fam["types"]})
+        groups, order, _ = vlib.run_harness("sig", scen, "sig_C09")
+    else:
+        run.rule = ("boolean gate: %d target return types (bool, alias of bool, unsafe/extern bool functions, fn() -> bool, fn(u8) -> fn() -> bool, "
+                    "Option<bool>, &bool, (bool,), Result<(), bool>, String, (), u8, *const bool, -> bool inside a parameter, Box<dyn Fn() -> bool>) x "
+                    "both values, real installations; stub bytes (mov rax, imm32; ret) executed on X64.tla from the placement runs; "
+                    "register probes around the call" % len(fam["bools"]))
+        scen = [{"id": 1, "mode": "bool", "bools": fam["bools"]}]
+        groups, order, _ = vlib.run_harness("sig", scen, "sig_C10")
+    cfgp = tlc.make_cfg("Trace_Sig", {"Props": '{"%s", "ALL"}' % prop}, "Trace_Sig_" + prop)
+    # one scenario per event so that every pair gets its own verdict
+    per = []
+    for sc in scen:
+        for k, e in enumerate(groups.get(sc["id"], [])):
+            if e["ev"] in ("Pair", "BoolGate", "ChildExit"):
+                per.append((len(per) + 1, [e]))
+    tv = tlc.validate_traces("Trace_Sig", cfgp, per, WORK, "trace_sig_" + prop, timeout=3000)
+    run.traces += len(tv["accepted"])
+    run.states += tv["states"]
+    run.transitions += tv["transitions"]
+    acc = ref = 0
+    for sid, evs in per:
+        e = evs[0]
+        if e["ev"] == "Pair":
+            run.note_case("%s %s->%s" % (e["form"], e["a"], e["b"]))
+            acc += e["verdict"] == "accepted"
+            ref += e["verdict"] == "refused"
+        elif e["ev"] == "BoolGate":
+            run.note_case("bool %s %s" % (e["k"], e["v"]))
+            acc += e["verdict"] == "accepted"
+            ref += e["verdict"] == "refused"
+        if sid not in tv["accepted"]:
+            if e["ev"] == "Pair":
+                key = "C09 form=%s target=%s fake=%s verdict=%s" % (e["form"], e["ta"]["text"], e["tb"]["text"], e["verdict"])
+            elif e["ev"] == "BoolGate":
+                key = "C10 ret=%s verdict=%s" % (e["fam"]["ret"], e["verdict"])
+            else:
+                key = "%s child exit signal=%s" % (prop, e.get("signal"))
+            run.violation(key, {"event": e})
+    if acc == 0 or ref == 0:
+        raise ToolError("vacuity guard: accepted=%s refused=%s" % (acc, ref))
+    run.extra["gate"] = {"accepted": acc, "refused": ref}
+    run.sample(per[len(per) // 2][1][0])
+    if prop == "C10":
+        # stub bytes + native result through the placement driver (both values, straddling entries, low/high addresses)
+        pscen = [sc for sc in placement_scenarios(tier) if sc.get("flavour") == "bool"]
+        for k, sc in enumerate(pscen, 1):
+            sc["id"] = k
+        pg, po, _ = vlib.run_harness("placement", pscen, "placement_C10", timeout=3000)
+        cfg2 = tlc.make_cfg("Trace_Patch", {"Props": '{"C10", "ALL"}'}, "Trace_Patch_C10")
+        live = [sc for sc in pscen if not any(e["ev"] == "Note" and e.get("what") == "skipped" for e in pg.get(sc["id"], []))]
+        tv2 = tlc.validate_traces("Trace_Patch", cfg2, [(sc["id"], pg.get(sc["id"], [])) for sc in live], WORK, "trace_C10p", timeout=3000)
+        run.traces += len(tv2["accepted"])
+        run.states += tv2["states"]
+        run.transitions += tv2["transitions"]
+        run.extra["stub_placements"] = {"executed": len(live), "accepted": len(tv2["accepted"])}
+        byid = {sc["id"]: sc for sc in pscen}
+        for sid in tv2["ids"]:
+            run.note_case("stub %s" % json.dumps({k: byid[sid][k] for k in byid[sid] if k != "id"}, sort_keys=True))
+            if sid not in tv2["accepted"]:
+                evs = pg.get(sid, [])
+                reached, total = tv2["progress"][sid]
+                run.violation("C10 stub v=%s page_off=%s" % (byid[sid].get("boolv"), byid[sid].get("off")),
+                              {"scenario": byid[sid], "first_unmatched_event": evs[reached] if reached < len(evs) else None})
+    return run.finish()
+
+
 CHECKS = {
     "C01": placement_check,
+    "C09": sig_check,
+    "C10": sig_check,
+    "C13": placement_check,
     "C15": a64_check,
     "C16": arm_check,
     "C04": lock_check,
